@@ -22,7 +22,7 @@ EXPLANATION = (
     'that writes a length prefix decodes with prefix size 3 and every transport that writes bare frames decodes '
     'with prefix size 0; plus (shared with C12.e) every iteration consumes at least one byte. Not decided: equality '
     'of the decoded sequences for all partitions (a value property).')
-EXPLANATION_ADDED = ('(g) the TCP transport hands every non-empty chunk, whole, to the parser and gives a chunk up only because it is empty; (h) what the decoder hands back on a parse failure (shared C12.a).')
+EXPLANATION_ADDED = ('(g) the TCP transport hands every non-empty chunk, whole, to the parser and gives a chunk up only because it is empty; (h) what the decoder hands back on a parse failure (shared C12.a); (i) the receive loop is entered whenever the prefix bytes are buffered (message mode: for every non-empty message), so no complete frame is left in the buffer to shift the ones after it; the message transports raise only exceptions and yield everything else.')
 EXPLANATION = EXPLANATION.replace(' Not decided', ' ' + EXPLANATION_ADDED + ' Not decided', 1) \
     if ' Not decided' in EXPLANATION else EXPLANATION + ' ' + EXPLANATION_ADDED
 ASSUMPTIONS = COMMON_ASSUMPTIONS
@@ -50,6 +50,17 @@ def rule_a(ctx):
         raise AnalysisError('C04: cannot identify the receive buffer (no extend())')
     ctx.cache['parser_buf'] = buf_attr
     results = {}
+    guards = {}
+    try:
+        min_frame = int(ctx.repo.const(ctx.repo.module('rsocket.frame'), ast.Name(id='HEADER_LENGTH', ctx=ast.Load())))
+    except (KeyError, TypeError, ValueError):
+        raise AnalysisError('C04.a: HEADER_LENGTH of rsocket.frame is not a constant')
+    guard_nodes = set()
+    for n in walk_local(f.node):
+        if isinstance(n, ast.While):
+            guard_nodes.add(n.test)
+            for x in ast.walk(n.test):
+                guard_nodes.add(x)
     for h in (3, 0):
         paths = ctx.paths(f, c, args={'header_length': const(h)}, no_inline={'parse_or_ignore'},
                           symbolic_compare=False)
@@ -81,6 +92,26 @@ def rule_a(ctx):
                     t = strip_epoch(e.data['value'].term)
                     if t[0] == 'op' and t[1] == 'Sub':
                         forms['decrement'] = to_lin(t[3], atoms)
+            # the loop guard: the first test of the while statement on this path
+            for e in p.events:
+                if e.kind == 'cond' and e.node in guard_nodes and 'guard_seen' not in forms:
+                    k = strip_epoch(e.data['key'])
+                    # normalise to 'entered iff count >= thr'
+                    thr_form = None
+                    if k[0] in ('lt', 'le') and len(k) == 3:
+                        count_left = 'len' in repr(k[1]) and 'len' not in repr(k[2])
+                        count_right = 'len' in repr(k[2]) and 'len' not in repr(k[1])
+                        try:
+                            if count_left and e.data['value'] is False:
+                                # not (count < B) / not (count <= B)
+                                thr_form = to_lin(k[2], atoms) + Lin.k(0 if k[0] == 'lt' else 1)
+                            elif count_right and e.data['value'] is True:
+                                # A < count / A <= count
+                                thr_form = to_lin(k[1], atoms) + Lin.k(1 if k[0] == 'lt' else 0)
+                        except LayoutError:
+                            thr_form = None
+                    forms['guard'] = thr_form
+                    forms['guard_seen'] = True
             missing = [k for k in ('complete', 'parsed_lo', 'parsed_hi', 'dropped', 'decrement') if k not in forms]
             if missing:
                 raise AnalysisError('C04.a: cannot find %s in an iteration (header_length=%d)' % (missing, h))
@@ -98,7 +129,27 @@ def rule_a(ctx):
             elif forms['decrement'] != forms['complete']:
                 ok, detail = False, 'the byte counter is reduced by %r but the frame occupied %r bytes' % (
                     forms['decrement'], forms['complete'])
+            if not forms.get('guard_seen'):
+                raise AnalysisError('C04.a: the loop guard of receive_data was not evaluated on an iteration path')
+            g = forms.get('guard')
+            # entered iff the buffered byte count is at least the threshold
+            # (a valid frame has at least the 6 header bytes, so in prefix mode a threshold up to prefix + 6 only
+            # delays the marker of a runt frame; in message mode every non-empty message must be taken)
+            lo_ok, hi_ok = (3, 3 + min_frame) if h else (0, 1)
+            thr = g.const if g is not None and g.is_const() else None
+            guard_ok = thr is not None and lo_ok <= thr <= hi_ok
+            guards.setdefault(h, []).append((guard_ok, g))
             results.setdefault(h, []).append((ok, detail))
+    for h, lst in sorted(guards.items()):
+        badg = [g for ok, g in lst if not ok]
+        rep.add('C04.a', 'FrameParser.receive_data / the loop takes every buffered frame (prefix size %d)' % h, f,
+                not badg,
+                'the loop is entered whenever at least the %d prefix bytes are buffered; only the completeness test '
+                'ends it' % h if not badg else
+                'the loop is entered only when the buffer holds at least %r bytes: %s' % (
+                    badg[0], 'a message shorter than that is never taken out of the buffer and shifts every later '
+                    'message' if h == 0 else 'outside the range [prefix, prefix + minimum frame] a length is read from '
+                    'too few bytes or a complete frame waits for bytes that may never come'))
     for h, lst in sorted(results.items()):
         bad = [d for ok, d in lst if not ok]
         rep.add('C04.a', 'FrameParser.receive_data / one frame extent everywhere (prefix size %d)' % h, f, not bad,
